@@ -585,3 +585,62 @@ pub fn s5(sink: &mut Sink, thorough: bool) -> (usize, usize) {
     }
     (histories, steps)
 }
+
+
+/// S6: long histories of whole cycles - a two-fragment message completed `n` times on one parser without reset
+/// (a counter of completed messages, a generation number ...), and single messages whose total size is exactly
+/// 2^16 - 1, 2^16, 2^16 + 1, 2^17 +- 1, 3 * 2^16 (a size kept in 16 bits), fed in even and uneven fragments.
+/// Returns (histories, steps).
+pub fn s6(sink: &mut Sink, thorough: bool) -> (usize, usize) {
+    let mut histories = 0;
+    let mut steps = 0;
+    // (a) cycles
+    for n in if thorough { vec![255usize, 256, 257, 65535, 65536, 65537, 70000] } else { vec![257, 65537] } {
+        let alpha = vec![rec(0x16, &[0x0e, 0x00]), rec(0x16, &[0x00, 0x00]), rec(0x18, &[0x01, 0x00]), rec(0x18, &[0x01, 0xaa, 0, 0])];
+        let mut ops = Vec::with_capacity(2 * n + 4);
+        for k in 0..n {
+            if k % 1000 == 999 {
+                ops.push(Op::Parse(2));
+                ops.push(Op::Parse(3));
+            } else {
+                ops.push(Op::Parse(0));
+                ops.push(Op::Parse(1));
+            }
+        }
+        histories += 1;
+        steps += ops.len();
+        sink.evals += ops.len() as u64;
+        if let Some((k, m)) = run_history(&alpha, &ops) {
+            sink.violation(format!("S6 cycles {} op {}", n, k), format!("[S6 {} completed two-fragment messages in a row] operation {} ({}): {}", n, k, op_str(&ops[k], &alpha), m), json!({"kind":"cycles","n":n}));
+        }
+    }
+    // (b) totals around multiples of 2^16
+    for total in [65535usize, 65536, 65537, 131071, 131072, 131073, 196608] {
+        for frag in [16384usize, 10000] {
+            if !thorough && frag == 10000 && total > 131072 {
+                continue;
+            }
+            let hl = total - 4;
+            let mut msg = vec![0x14, (hl >> 16) as u8, (hl >> 8) as u8, hl as u8];
+            msg.extend((0..hl).map(|i| (i % 251) as u8));
+            let mut alpha = Vec::new();
+            let mut ops = Vec::new();
+            let mut at = 0;
+            while at < total {
+                let e = (at + frag).min(total);
+                alpha.push(rec(0x16, &msg[at..e]));
+                ops.push(Op::Parse(alpha.len() - 1));
+                at = e;
+            }
+            alpha.push(rec(0x16, &[0x0e, 0, 0, 0]));
+            ops.push(Op::Parse(alpha.len() - 1));
+            histories += 1;
+            steps += ops.len();
+            sink.evals += ops.len() as u64;
+            if let Some((k, m)) = run_history(&alpha, &ops) {
+                sink.violation(format!("S6 total {} frag {} op {}", total, frag, k), format!("[S6 message of {} bytes in fragments of {}] operation {}: {:.300}", total, frag, k, m), json!({"kind":"total","total":total,"frag":frag}));
+            }
+        }
+    }
+    (histories, steps)
+}
